@@ -563,7 +563,8 @@ def check_population(ctx: Ctx, meta: Meta, pi, payload, d, res, hcases, qcases, 
             if "records" in ho:
                 rq = ho["records"].get(e, {})
                 gotq = norm([flat(r) for r in rq.get("rows", [])]) if "rows" in rq else rq.get("err")
-                if rcases is not None and e in meta.el and meta.el[e]["has_own_table"]:
+                # model cases: quick tier on the first two histories of a population (the oracle above looks at all of them)
+                if rcases is not None and e in meta.el and meta.el[e]["has_own_table"] and (hi < 2 or not ctx.quick):
                     if "rows" in rq:
                         robs = f"(0%N, {clist(c_rrow(r) for r in rq['rows'])})"
                     else:
